@@ -1528,6 +1528,8 @@ where
             return;
         };
 
+        let is_gossipsub = connected_peer.kind.is_gossipsub();
+
         // For each topic, if a peer has grafted us, then we necessarily must be in their mesh
         // and they must be subscribed to the topic. Ensure we have recorded the mapping.
         for topic in &topics {
@@ -1542,6 +1544,12 @@ where
         // we don't GRAFT to/from explicit peers; complain loudly if this happens
         if self.explicit_peers.contains(peer_id) {
             tracing::warn!(peer=%peer_id, "GRAFT: ignoring request from direct peer");
+            return;
+        }
+
+        // only gossipsub peers can be part of a mesh (floodsub peers do not speak GRAFT/PRUNE)
+        if !is_gossipsub {
+            tracing::warn!(peer=%peer_id, "GRAFT: ignoring request from non-gossipsub peer");
             return;
         }
 
